@@ -28,6 +28,19 @@ pub fn profile_short() -> &'static str {
     }
 }
 
+/// Every scenario executes on a fresh OS thread, so that thread-local state inside the library (or the
+/// harness) cannot leak from one run into the next: a run is a function of its scenario alone, which is
+/// what makes a replay in a fresh process agree with the run that found the violation.
+pub fn exec_hermetic(prop: &dyn Prop, sc: &Scenario) -> crate::props::RunOut {
+    std::thread::scope(|s| match s.spawn(|| prop.execute(sc)).join() {
+        Ok(o) => o,
+        Err(_) => {
+            eprintln!("HARNESS ERROR: scenario thread panicked");
+            std::process::exit(2);
+        }
+    })
+}
+
 pub struct Opts {
     pub prop: String,
     pub tier: Tier,
@@ -176,7 +189,7 @@ pub fn replay_file(path: &str) -> i32 {
             eprintln!("note: replay was recorded under profile '{}', this binary is '{}'", p, profile_short());
         }
     }
-    let out = prop.execute(&sc);
+    let out = exec_hermetic(prop.as_ref(), &sc);
     if let Some(why) = out.invalid {
         println!("REPLAY-RESULT class=invalid\tkey={}\tstep=0", why);
         return 2;
@@ -203,6 +216,7 @@ pub fn run(prop: &dyn Prop, o: &Opts) -> i32 {
     let accs: Mutex<Vec<Acc>> = Mutex::new(vec![]);
     let workers = o.workers.max(1);
     let dump_hashes = o.dump_hashes.is_some();
+    let hermetic = prop.hermetic();
     let slow_ms: u64 = std::env::var("VERIF_SLOW_MS").ok().and_then(|s| s.parse().ok()).unwrap_or(0);
     std::thread::scope(|s| {
         for _ in 0..workers {
@@ -216,7 +230,20 @@ pub fn run(prop: &dyn Prop, o: &Opts) -> i32 {
                     let mut rng = Rng::new(run_seed(o.seed, prop.id(), i));
                     let sc = prop.generate(i, &mut rng, o.tier);
                     let t_run = Instant::now();
-                    let out = prop.execute(&sc);
+                    let mut out = if hermetic { exec_hermetic(prop, &sc) } else { prop.execute(&sc) };
+                    if !hermetic {
+                        if let Some(v) = &out.violation {
+                            // confirm on a fresh thread: a violation that needs state left behind by earlier runs on
+                            // this worker thread cannot be replayed from its scenario and is hidden-state evidence
+                            // (C17's subject), not a finding of this property
+                            let again = exec_hermetic(prop, &sc);
+                            let same = again.violation.as_ref().map(|w| w.sig() == v.sig()).unwrap_or(false);
+                            if !same {
+                                out.violation = None;
+                                out.stats.hit("skip.violation_not_reproducible_on_fresh_thread");
+                            }
+                        }
+                    }
                     if slow_ms > 0 && t_run.elapsed().as_millis() as u64 >= slow_ms {
                         eprintln!("SLOW run {} {:?}ms mode={} trees={:?} feeds={:?}", i, t_run.elapsed().as_millis(), sc.mode, sc.trees.iter().map(|t| t.show()).collect::<Vec<_>>(), sc.feeds.iter().map(|f| f.len()).collect::<Vec<_>>());
                     }
@@ -277,7 +304,7 @@ pub fn run(prop: &dyn Prop, o: &Opts) -> i32 {
     let mut extra: Vec<(Scenario, Violation)> = vec![];
     if !o.only_hash {
         for sc in prop.post_batch(o.seed, total, o.tier) {
-            let out = prop.execute(&sc);
+            let out = exec_hermetic(prop, &sc);
             m.evals += 1;
             m.stats.merge(&out.stats);
             if out.nontrivial {
@@ -305,6 +332,7 @@ pub fn run(prop: &dyn Prop, o: &Opts) -> i32 {
     let mut reported: Vec<Value> = vec![];
     let mut known_hits: BTreeMap<String, u64> = BTreeMap::new();
     let mut unlisted = 0u64;
+    let mut not_reproducible = 0u64;
     let mut lines: Vec<String> = vec![];
     let _ = std::fs::create_dir_all(&o.replays_dir);
     let per_group = 3usize;
@@ -339,8 +367,19 @@ pub fn run(prop: &dyn Prop, o: &Opts) -> i32 {
             match exe_replay(&fname) {
                 Some((c, k, st)) if c == mini.violation.class && k == mini.violation.key && st == mini.violation.step => {}
                 other => {
-                    eprintln!("HARNESS ERROR: fresh-process replay of {} disagreed: expected {}@{}, got {:?}", fname, sig, mini.violation.step, other);
-                    return 2;
+                    // the scenario is explicit and the harness is deterministic (selftest), so a different outcome
+                    // in another process means the library's result depends on process-wide state
+                    if prop.id() == "C17" {
+                        unlisted += 1;
+                        lines.push(format!("VIOLATION property=C17 replay={}", fname));
+                        lines.push(format!("  seed={} run={} class=depends_on_process_state :: the scenario gave {} here but {:?} when replayed in a fresh process: hidden process-wide state", o.seed, i, sig, other));
+                        reported.push(json!({"known": false, "run": i, "replay": fname, "what": "outcome differs between processes"}));
+                    } else {
+                        let _ = std::fs::remove_file(&fname);
+                        not_reproducible += 1;
+                        eprintln!("WARN: {} run {}: violation {} did not reproduce in a fresh process ({:?}); hidden process-wide state is C17's subject, not counted here", prop.id(), i, sig, other);
+                    }
+                    continue;
                 }
             }
             let what = format!(
@@ -442,6 +481,7 @@ pub fn run(prop: &dyn Prop, o: &Opts) -> i32 {
         "violation_groups": groups.len(),
         "reported": reported,
         "unlisted_violations": unlisted,
+        "violations_not_reproducible_in_fresh_process": not_reproducible,
         "known_findings_matched": known_hits.iter().map(|(k, v)| json!({"finding": k, "replays": v})).collect::<Vec<_>>(),
     });
     if let Some(p) = &o.part_out {
